@@ -278,8 +278,11 @@ def build(func, mod=None):
                         r = {"add": x + y, "sub": x - y, "mul": x * y}[op]
                         lo, hi = -(1 << (INT_BITS[ins.ty] - 1)), (1 << (INT_BITS[ins.ty] - 1)) - 1
                         if "nsw" in flags and not (lo <= r <= hi):
-                            raise AnalysisBroken("%s: constant signed overflow in %s" % (func.name, ins.raw))
-                        n = const(ins.ty, wrap_int(r, ins.ty))
+                            # constant-only signed overflow: undefined for every input
+                            n = Node("ub_const", ins.ty, (), "signed-overflow: %d %s %d" % (x, op, y), ins.dbg)
+                            d.arith.append((g, n))
+                        else:
+                            n = const(ins.ty, wrap_int(r, ins.ty))
                     else:
                         if op in COMMUTATIVE:
                             a, c = sorted((a, c), key=lambda x: repr(x.key))
@@ -465,4 +468,57 @@ def affine(node, uns=False):
         if a is None or b is None or b.coef or a.div is not None or b.c == 0:
             return None
         return Affine({}, 0, a.premises + [node], div=b.c, inner=a)
+    return None
+
+
+def fp_affine(node, uns=False):
+    """Affine form over the REALS of a floating node (every IEEE operation read as the exact
+    operation): ({param: Fraction}, const Fraction, [operation nodes]) or None.  Used to check that a
+    floating conversion is the model map up to the rounding of its constants and operations."""
+    op = node.op
+    if op == "param":
+        return ({node.attr: Fraction(1)}, Fraction(0), [])
+    if op == "const":
+        if isinstance(node.cval(), Fraction):
+            return ({}, node.cval(), [])
+        if node.cval() == "-0":
+            return ({}, Fraction(0), [])
+        if node.ty in INT_BITS:
+            return ({}, Fraction(wrap_int(node.cval(), node.ty) if uns else as_signed(node.cval(), node.ty)), [])
+        return None
+    if op in ("fpext", "fptrunc", "sitofp", "uitofp", "sext", "zext"):
+        r = fp_affine(node.args[0], uns)
+        if r is None:
+            return None
+        return (r[0], r[1], r[2] + [node])
+    if op in ("fadd", "fsub", "add", "sub"):
+        a, b = fp_affine(node.args[0], uns), fp_affine(node.args[1], uns)
+        if a is None or b is None:
+            return None
+        s = 1 if op in ("fadd", "add") else -1
+        coef = dict(a[0])
+        for k, v in b[0].items():
+            coef[k] = coef.get(k, 0) + s * v
+        return ({k: v for k, v in coef.items() if v != 0}, a[1] + s * b[1], a[2] + b[2] + [node])
+    if op in ("fmul", "mul"):
+        a, b = fp_affine(node.args[0], uns), fp_affine(node.args[1], uns)
+        if a is None or b is None:
+            return None
+        if not a[0]:
+            k, f = a[1], b
+        elif not b[0]:
+            k, f = b[1], a
+        else:
+            return None
+        return ({i: v * k for i, v in f[0].items()}, f[1] * k, a[2] + b[2] + [node])
+    if op == "fdiv":
+        a, b = fp_affine(node.args[0], uns), fp_affine(node.args[1], uns)
+        if a is None or b is None or b[0] or b[1] == 0:
+            return None
+        return ({i: v / b[1] for i, v in a[0].items()}, a[1] / b[1], a[2] + b[2] + [node])
+    if op == "fneg":
+        a = fp_affine(node.args[0], uns)
+        if a is None:
+            return None
+        return ({i: -v for i, v in a[0].items()}, -a[1], a[2] + [node])
     return None
